@@ -29,7 +29,7 @@ Section HistUnify.
     assert (0 < len v) by (destruct v; [congruence|lens; pose proof (len_nonneg _ v); lia]).
     unfold uc_trim. cbn [edits LStart LEnd RStart REnd].
     unfold uc_end_idx. rewrite ptr_at_last. cbn [deref bind].
-    cbn [is_emit emit_edit eop op_eqb X Y].
+    unfold uc_end_emit. cbn [is_emit emit_edit eop op_eqb X Y].
     unfold uc_end_whole, uc_end_drop_hi, uc_end_trim_hi, uc_end_lend, uc_end_rend, uc_bad_merge.
     destruct u as [|a u].
     - replace (len v >=? len ([] ++ v)) with true by (cbn [app]; lia).
